@@ -46,7 +46,7 @@ func init() {
 			"sums of locations, database ranges and date ranges stay far below 2^63 (Go int is 64 bits)",
 			"Go's time, strconv, regexp and sort packages behave as modelled (time.Parse validity of yyyy/yyyymm/yyyymmdd, Duration saturation, Atoi)",
 			"the murmur shard is modelled for an arbitrary hash function (its placements are compared as listed/unlisted only)",
-			"mycat_mod placements are not compared for keys of magnitude >= 2^63 (changed by fix 834ed28 on branch agent-shard)",
+			"mycat_mod placements are not compared for keys of magnitude >= 2^63 (changed by fix 722beea on branch agent-shard)",
 		},
 	})
 }
@@ -208,7 +208,7 @@ func c10ProbedType(t string) bool {
 	return false
 }
 
-// keys whose mycat_mod placement differs between this tree and fix 834ed28 of
+// keys whose mycat_mod placement differs between this tree and fix 722beea of
 // branch agent-shard (|key| >= 2^63): not compared.
 func c10MycatModSkip(k c10Key) bool {
 	switch k.kind {
